@@ -45,9 +45,10 @@ def run(tier, seed, replay=None):
     for k, (pid, name, text, opts) in enumerate(pts):
         jobs1.append({"id": len(jobs1), "src": text, "opts": opts, "want": ["out"], "_pid": pid})
         # the same point from a perturbed layout: not a blessed fixed point
-        if tier == "thorough" or k % 2 == 0:
+        hp = core.fnv(pid.encode())      # a function of the point, not of its rank in this run
+        if tier == "thorough" or hp % 2 == 0:
             jobs1.append({"id": len(jobs1), "src": text, "opts": opts, "want": ["out"],
-                          "relayout": 1 + (k % 5), "_pid": pid + ":relayout"})
+                          "relayout": 1 + (hp % 5), "_pid": pid + ":relayout"})
     with Scratch("c02") as sc:
         r1 = ucore.run_jobs([{k: j[k] for k in j if not k.startswith("_")} for j in jobs1], sc,
                             timeout=30)
